@@ -208,6 +208,8 @@ class PdoMap:
         self.callbacks = []
         self.receive_condition = threading.Condition()
         self.is_received: bool = False
+        #: Number of messages received so far
+        self._receptions: int = 0
         self._task = None
 
     def __repr__(self) -> str:
@@ -314,6 +316,7 @@ class PdoMap:
         if can_id == self.cob_id and not is_transmitting:
             with self.receive_condition:
                 self.is_received = True
+                self._receptions += 1
                 # Keep a private copy, the same buffer is handed to every
                 # subscriber of this COB-ID
                 self.data = bytearray(data)
@@ -568,9 +571,13 @@ class PdoMap:
         :return: Timestamp of message received or None if timeout.
         """
         with self.receive_condition:
+            # Count receptions instead of sharing one flag: another reader
+            # that starts to wait must not make this one miss its message
+            seen = self._receptions
             self.is_received = False
-            self.receive_condition.wait(timeout)
-        return self.timestamp if self.is_received else None
+            self.receive_condition.wait_for(
+                lambda: self._receptions != seen, timeout)
+            return self.timestamp if self._receptions != seen else None
 
 
 class PdoVariable(variable.Variable):
